@@ -1,5 +1,6 @@
 (* C02 property theorems: statements only, each closed by [exact]. *)
 From Boltons Require Import Lib.Prelude Lib.C02_Syntax Spec.C02_Spec Model.C02_Model
+  Model.C02_PtrModel Model.C02_PtrCache Proofs.C02_PtrLemmas Proofs.C02_PtrRep Proofs.C02_PtrSim
   Proofs.C02_Lists Proofs.C02_Inv Proofs.C02_Heap Proofs.C02_Thms Proofs.C02_Counters Proofs.C02_Recency.
 Close Scope N_scope.
 Open Scope nat_scope.
@@ -187,4 +188,45 @@ Example C02_recency_inhabited :
   use_log c m0 ops = [1; 2; 3; 1; 2; 4; 5]
   /\ keep_last (7 :: use_log c m0 ops) = [7; 3; 1; 2; 4; 5]
   /\ keys (ring (run1 c m0 ops)) = [2; 4; 5].
+Proof. vm_compute. repeat split. Qed.
+
+(* ---- the linked list at the level of cells and pointers ------------------------------ *)
+(* Model/C02_PtrModel.v + C02_PtrCache.v transcribe the same methods with the four
+   linked-list helpers as reads and writes of [PREV, NEXT, KEY, VALUE] cells
+   (anchor rotation in the evicting helper included).  For every configuration
+   with max_size >= 1 and every list of (operation, observation) pairs the
+   pointer-level model accepts exactly what the list-level model accepts ... *)
+Theorem C02_pointer_model_equiv : forall c init steps,
+  1 <= c_max c -> pagree_check c init steps = agree_check c init steps.
+Proof. exact pagree_check_eq. Qed.
+Print Assumptions C02_pointer_model_equiv.
+
+(* ... hence the `agree` bit, which Check/C02_Check.v computes on the pointer-level
+   model, implies the `holds` bit *)
+Theorem C02_refines_pointer : forall c init steps,
+  1 <= c_max c -> pagree_check c init steps = true -> spec_check c init steps = true.
+Proof. exact pagree_implies_holds. Qed.
+Print Assumptions C02_refines_pointer.
+
+(* every pointer-level step corresponds to the list-level step: same outcome,
+   and the cells again represent the list (PRel: same storage and counters,
+   Rep: a NoDup cycle of cells anchor -> oldest -> ... -> newest -> anchor whose
+   NEXT/PREV fields agree, whose KEY/VALUE fields are the items in order, and a
+   link table that maps every key to its cell) *)
+Theorem C02_pointer_step : forall c p m o,
+  1 <= c_max c -> Inv c m -> PRel p m ->
+  exists p', pstep1 c p o = (p', snd (step1 c m o)) /\ PRel p' (fst (step1 c m o)).
+Proof. exact pstep1_sim. Qed.
+Print Assumptions C02_pointer_step.
+
+(* the flattened list of a represented ring is the list *)
+Theorem C02_pointer_flatten : forall pr l ids, Rep pr l ids -> p_flatten pr = l.
+Proof. exact rep_flatten. Qed.
+Print Assumptions C02_pointer_flatten.
+
+Example C02_pointer_inhabited :
+  pagree_check ex_cfg [] (combine ex_ops (model_run ex_cfg [] ex_ops)) = true
+  /\ (let p := fst (psetitems ex_cfg p_empty [(1, 10); (2, 20); (3, 30)]) in
+      p_flatten (ps_ring p) = [(2, 20); (3, 30)]
+      /\ pr_anchor (ps_ring p) = 1 /\ pr_lookup (ps_ring p) = [(2, 2); (3, 0)]).
 Proof. vm_compute. repeat split. Qed.
